@@ -487,28 +487,21 @@ func (bh *Header) AddReference(r *Reference) error {
 		} else if !equalRefs(r, &Reference{id: -1, name: er.name, lRef: er.lRef}) {
 			return errDupReference
 		}
-		if r.md5 == "" {
-			r.md5 = er.md5
+		// r describes the reference the header already holds and may
+		// add detail to it. Fold that into er, which keeps its place
+		// and identity: records and merge links already refer to it.
+		if r.md5 != "" {
+			er.md5 = r.md5
 		}
-		if r.assemID == "" {
-			r.assemID = er.assemID
+		if r.assemID != "" {
+			er.assemID = r.assemID
 		}
-		if r.species == "" {
-			r.species = er.species
+		if r.species != "" {
+			er.species = r.species
 		}
-		if r.uri == nil {
-			r.uri = er.uri
+		if r.uri != nil {
+			er.uri = r.uri
 		}
-		if len(r.otherTags) == 0 {
-			r.otherTags = er.otherTags
-		}
-		// r replaces er in the header, so it takes over its
-		// identity and er is released.
-		er.owner = nil
-		er.id = -1
-		r.owner = bh
-		r.id = dupID
-		bh.refs[dupID] = r
 		return nil
 	}
 	if r.owner != nil || r.id >= 0 {
